@@ -94,30 +94,31 @@ type Result struct {
 type pipe struct{ r, w int }
 
 var st struct {
-	active    bool
-	ntasks    int
-	cur       int
-	done      [MaxTasks]bool
-	yields    [MaxTasks]uint64
-	mapcnt    [MaxTasks]uint64
-	prio      [MaxTasks]int // prio[t] = priority value, larger runs first
-	total     uint64
-	cfg       Config
-	srng      uint64
-	explicit  map[[2]uint64]int
-	pctIdx    int
-	noPreempt int
-	stuck     int
-	res       Result
-	pipes     [MaxTasks]pipe
-	mainPipe  pipe
-	pipesOK   bool
-	aborted   bool
-	seq       bool
-	checkGoid bool
-	goids     [MaxTasks]uint64
-	seqGoid   uint64
-	foreign   uint64
+	active        bool
+	ntasks        int
+	cur           int
+	done          [MaxTasks]bool
+	yields        [MaxTasks]uint64
+	mapcnt        [MaxTasks]uint64
+	prio          [MaxTasks]int // prio[t] = priority value, larger runs first
+	total         uint64
+	cfg           Config
+	srng          uint64
+	explicit      map[[2]uint64]int
+	pctIdx        int
+	noPreempt     int
+	stuck         int
+	res           Result
+	pipes         [MaxTasks]pipe
+	mainPipe      pipe
+	pipesOK       bool
+	aborted       bool
+	seq           bool
+	checkGoid     bool // verify the caller's goroutine identity at every yield
+	libGoroutines bool // the instrumented library contains go statements
+	goids         [MaxTasks]uint64
+	seqGoid       uint64
+	foreign       uint64
 }
 
 var hits [MaxSites]uint32
@@ -309,11 +310,19 @@ func SetCheckGoroutine(on bool) { setCheckGoid(on) }
 
 //go:norace
 //go:noinline
-func setCheckGoid(on bool) { st.checkGoid = on }
+func setCheckGoid(on bool) {
+	st.libGoroutines = on
+	st.checkGoid = on || fastG
+}
+
+func init() { setCheckGoid(false) } // on amd64 the identity check is always on: it costs two instructions
 
 //go:norace
 //go:noinline
 func curGoid() uint64 {
+	if fastG {
+		return uint64(getg())
+	}
 	var buf [40]byte
 	n := runtime.Stack(buf[:], false)
 	// "goroutine 123 [running]:"
@@ -522,7 +531,7 @@ func progress() { st.stuck = 0 }
 //go:norace
 //go:noinline
 func markSelfDeadlock() {
-	if st.active && (st.ntasks < 2 || st.seq) && !st.checkGoid {
+	if st.active && (st.ntasks < 2 || st.seq) && !st.libGoroutines {
 		st.res.Deadlock = true
 	}
 }
